@@ -222,6 +222,21 @@ def run(F, R):
             key = "%s:arm%d" % (bv.body.get("item") or bv.id.split("::")[-2], k)
             R.check("C11-R3", "no-overwrite-of-pending-options:" + key, not bad, "a request taken while busy never replaces the pending options as a whole (only the guarded OnDemand upgrade writes them)",
                     "a request taken while busy overwrites the pending check options (a later scheduled request can undo an on-demand upgrade): %s" % bad, S.nodes[sn].loc())
+    # .. wherever it is written: a helper that copies the request's source into the pending options (`ongoing.source =
+    # requested.source`) lets a later scheduled request undo an on-demand upgrade just the same
+    for b in c.bodies:
+        if "::tests" in b["id"] or not b["id"].startswith("omaha_client::state_machine"):
+            continue
+        v_ = BV.of(b)
+        for (bi, si, p, r) in v_.field_writes:
+            if bi not in v_.reach0 or smod._chain(p)[-1:] != ["source"] or r.get("k") == "callret":
+                continue
+            if not v_.lty(p["l"])["s"].replace("&mut ", "").replace("&", "").endswith("CheckOptions"):
+                continue
+            val = v_._trace_rv(r, None, 0)
+            const_od = all(a[0] == "agg" and a[2] and a[2].endswith("InstallSource::OnDemand") for a in lib.alts(val))
+            R.check("C11-R3", "source-only-raised:" + (b.get("item") or b["id"].split("::")[-1]) + ":" + str(len([1 for i_ in R.instances if i_["rule"] == "C11-R3" and i_["key"].startswith("source-only-raised:")])), const_od,
+                    "the pending options' source is only ever set to OnDemand", "the pending options' source is assigned %s: a request that is not on-demand can lower an on-demand check back to scheduled" % fmt_t(val)[:80], lib.loc(v_, bi))
     R.floor("C11-R3", "control arms that return to their select", n_arm, 2)
     R.floor("C11-R3", "OnDemand upgrades", n_up, 2)
 
